@@ -50,6 +50,9 @@ pub struct Cfg {
 pub enum Ev {
     /// one uni stream to node `to`: frames declaring `cluster` (None = field absent) carrying tag
     Uni { to: usize, frames: Vec<(Option<u16>, u32)> },
+    /// one uni stream kept open across a cluster change of the receiver: `first` is written,
+    /// the receiver's cluster id becomes `id`, `rest` is written, the stream ends
+    UniSplit { to: usize, first: Vec<(Option<u16>, u32)>, id: u16, rest: Vec<(Option<u16>, u32)> },
     /// a sync session towards `to` declaring `cluster`
     Sync { to: usize, cluster: Option<u16> },
     /// what `corrosion cluster set-id` does to the running agent
@@ -77,6 +80,21 @@ pub fn generate(seed: u64) -> (Cfg, Vec<Ev>) {
     let mut tag = 1u32;
     let n = r.range(4, 14);
     for _ in 0..n {
+        if r.chance(0.12) {
+            let mut mk = |r: &mut Rng, tag: &mut u32| {
+                let k = r.range(1, 3);
+                let mut v = vec![];
+                for _ in 0..k {
+                    v.push((if r.chance(0.15) { None } else { Some(r.below(3) as u16) }, *tag));
+                    *tag += 1;
+                }
+                v
+            };
+            let first = mk(&mut r, &mut tag);
+            let rest = mk(&mut r, &mut tag);
+            evs.push(Ev::UniSplit { to: r.usize_below(3), first, id: r.below(3) as u16, rest });
+            continue;
+        }
         match r.weighted(&[40, 25, 12, 12, if cfg.real_bcast { 20 } else { 0 }]) {
             0 => {
                 let k = r.range(1, 5);
@@ -126,6 +144,9 @@ struct World {
     nodes: Vec<Node>,
     addrs: Vec<SocketAddr>,
     peer: Transport,
+    /// a second, raw QUIC client of the simulator (streams written piecewise)
+    raw: quinn::Endpoint,
+    raw_conns: std::collections::BTreeMap<usize, quinn::Connection>,
     stats: Stats,
     log: Vec<String>,
     next_sentinel: u32,
@@ -212,7 +233,10 @@ pub async fn run_events(seed: u64, cfg: Cfg, events: &[Ev], base: &Path, tag: &s
     }
     let (rtt_tx, _rtt_rx) = tokio::sync::mpsc::channel(1024);
     let peer = Transport::new(&nodes[0].agent.config().gossip, rtt_tx).await.map_err(|e| SimError::Harness(format!("peer transport: {e}")))?;
-    let mut w = World { nodes, addrs, peer, stats: Stats::default(), log: vec![], next_sentinel: 1_000_000 };
+    let raw = klukai_agent::api::peer::gossip_client_endpoint(&nodes[0].agent.config().gossip)
+        .await
+        .map_err(|e| SimError::Harness(format!("raw endpoint: {e}")))?;
+    let mut w = World { nodes, addrs, peer, raw, raw_conns: Default::default(), stats: Stats::default(), log: vec![], next_sentinel: 1_000_000 };
     w.refresh_members();
     let mut violation = None;
     let mut done = vec![];
@@ -233,6 +257,7 @@ pub async fn run_events(seed: u64, cfg: Cfg, events: &[Ev], base: &Path, tag: &s
     let mut sh = 0xcbf2_9ce4_8422_2325;
     for e in &done {
         let s = match e {
+            Ev::UniSplit { to, first, id, rest } => format!("V{to}:{}>{id}>{}", first.len(), rest.len()),
             Ev::Uni { to, frames } => format!("U{to}:{}", frames.iter().map(|(c, _)| c.map(|x| x.to_string()).unwrap_or("-".into())).collect::<Vec<_>>().join("")),
             Ev::Sync { to, cluster } => format!("S{to}{cluster:?}"),
             Ev::SetCluster { node, id } => format!("C{node}{id}"),
@@ -303,6 +328,90 @@ async fn exec(w: &mut World, ev: &Ev) -> R<Result<(), Violation>> {
             } else {
                 w.stats.probe("c16.uni-stream-checked");
             }
+            Ok(Ok(()))
+        }
+        Ev::UniSplit { to, first, id, rest } => {
+            w.stats.ev("UniSplit");
+            w.stats.fault("cluster-id-changed-while-a-stream-is-open");
+            let conn = match w.raw_conns.get(to) {
+                Some(c) if c.close_reason().is_none() => c.clone(),
+                _ => {
+                    let c = w
+                        .raw
+                        .connect(w.addrs[*to], &w.addrs[*to].ip().to_string())
+                        .map_err(|e| SimError::Harness(format!("connect: {e}")))?
+                        .await
+                        .map_err(|e| SimError::Harness(format!("connect: {e}")))?;
+                    w.raw_conns.insert(*to, c.clone());
+                    c
+                }
+            };
+            let _ = w.nodes[*to].drain_changes();
+            let _ = verif::uni_seen_take();
+            let own_before = w.cluster_of(*to);
+            let mut stream = conn.open_uni().await.map_err(|e| SimError::Harness(format!("open_uni: {e}")))?;
+            let mut data = BytesMut::new();
+            for (c, t) in first {
+                data.extend_from_slice(&uni_frame(*c, *t)?);
+            }
+            stream.write_all(&data).await.map_err(|e| SimError::Harness(format!("uni write: {e}")))?;
+            let _ = stream.flush().await;
+            // wait until the handler has looked at every frame of the first part
+            let start = Instant::now();
+            let mut seen = 0;
+            while seen < first.len() {
+                seen += verif::uni_seen_take().len();
+                if start.elapsed() > Duration::from_secs(5) {
+                    return Err(SimError::Harness("first part of the stream was not read by the handler".into()));
+                }
+                tokio::time::sleep(Duration::from_millis(1)).await;
+            }
+            w.nodes[*to].agent.set_cluster_id(ClusterId(*id));
+            w.refresh_members();
+            let own_after = *id;
+            let sentinel = w.next_sentinel;
+            w.next_sentinel += 1;
+            let mut data = BytesMut::new();
+            for (c, t) in rest {
+                data.extend_from_slice(&uni_frame(*c, *t)?);
+            }
+            // (the handler forwards accepted frames when the stream ends, last frame first)
+            stream.write_all(&data).await.map_err(|e| SimError::Harness(format!("uni write: {e}")))?;
+            let _ = stream.finish();
+            // a separate stream with the sentinel, after the handler saw the rest
+            let start = Instant::now();
+            let mut seen = 0;
+            while seen < rest.len() {
+                seen += verif::uni_seen_take().len();
+                if start.elapsed() > Duration::from_secs(5) {
+                    return Err(SimError::Harness("second part of the stream was not read by the handler".into()));
+                }
+                tokio::time::sleep(Duration::from_millis(1)).await;
+            }
+            if let Err(e) = w.peer.send_uni(w.addrs[*to], uni_frame(Some(own_after), sentinel)?).await {
+                return Err(SimError::Harness(format!("send_uni: {e}")));
+            }
+            let (mut got, seen_sentinel) = w.collect(*to, sentinel).await;
+            // the split stream's task may forward a moment after the sentinel's
+            tokio::time::sleep(Duration::from_millis(40)).await;
+            for (cv, _) in w.nodes[*to].drain_changes() {
+                if cv.actor_id == dummy_actor() {
+                    got.insert(cv.versions().start().0 as u32);
+                }
+            }
+            w.stats.oracle_checks += 1;
+            let mut expected: BTreeSet<u32> = first.iter().filter(|(c, _)| c.unwrap_or(0) == own_before).map(|(_, t)| *t).collect();
+            expected.extend(rest.iter().filter(|(c, _)| c.unwrap_or(0) == own_after).map(|(_, t)| *t));
+            w.log.push(format!("split uni -> n{to} (cluster {own_before} -> {own_after}): accepted {got:?}, sentinel {seen_sentinel}"));
+            let foreign: Vec<u32> = got.difference(&expected).copied().collect();
+            if !foreign.is_empty() {
+                return Ok(Err(vio(
+                    "broadcast-from-another-cluster-accepted",
+                    json!({"receiver": to, "receiver_cluster_when_the_stream_opened": own_before, "receiver_cluster_when_the_frames_arrived": own_after, "tags": foreign,
+                           "first_part": first, "second_part": rest}),
+                )));
+            }
+            w.stats.probe("c16.split-stream-checked");
             Ok(Ok(()))
         }
         Ev::Sync { to, cluster } => {
@@ -431,35 +540,46 @@ async fn exec(w: &mut World, ev: &Ev) -> R<Result<(), Violation>> {
             let own = w.cluster_of(*node);
             let k = w.next_sentinel;
             w.next_sentinel += 1;
-            let (status, _) = w.nodes[*node]
+            let (status, resp) = w.nodes[*node]
                 .write(vec![stmt(&format!("INSERT INTO t1 (id, a) VALUES ({k}, 'w') ON CONFLICT (id) DO UPDATE SET a = 'w2'"), vec![])], None)
                 .await?;
             if status != 200 {
                 return Err(SimError::Harness("write failed".into()));
             }
-            // the production loop transmits on its own timers (flush every 500 ms at most)
+            // the production loop transmits on its own timers (flush every 500 ms at most). Only
+            // frames carrying *this* transaction are judged: older payloads that the loop still
+            // re-sends were encoded (and their targets chosen) under earlier cluster ids
+            let me = w.nodes[*node].agent.actor_id().to_bytes();
+            let version = resp.version.unwrap_or(0);
             let start = Instant::now();
             let others_same = (0..w.nodes.len()).filter(|j| *j != *node && w.cluster_of(*j) == own).count();
-            let mut seen = vec![];
+            let mut seen: Vec<(u16, u16)> = vec![];
+            let mut take = |seen: &mut Vec<(u16, u16)>| {
+                for (d, o, a, v) in verif::uni_seen_take() {
+                    if a == me && v == version {
+                        seen.push((d, o));
+                    }
+                }
+            };
             while start.elapsed() < Duration::from_millis(1200) {
-                seen.extend(verif::uni_seen_take());
+                take(&mut seen);
                 if others_same > 0 && seen.iter().filter(|(d, o)| d == o).count() >= others_same {
                     // every same-cluster peer got it; cross-cluster transmissions of the same
                     // round would have been made in the same pass
                     tokio::time::sleep(Duration::from_millis(50)).await;
-                    seen.extend(verif::uni_seen_take());
+                    take(&mut seen);
                     break;
                 }
                 tokio::time::sleep(Duration::from_millis(5)).await;
             }
             w.stats.oracle_checks += 1;
             w.stats.fault("local-write-broadcast-by-the-production-loop");
-            w.log.push(format!("write n{node} (cluster {own}): frames seen by handlers (declared, own) = {seen:?}"));
+            w.log.push(format!("write n{node} (cluster {own}) v{version}: reached handlers of clusters {:?}", seen.iter().map(|x| x.1).collect::<BTreeSet<_>>()));
             for (declared, handler_cluster) in seen.iter() {
-                if declared != handler_cluster && *declared == own {
+                if *handler_cluster != own {
                     return Ok(Err(vio(
                         "broadcast-sent-to-a-member-of-another-cluster",
-                        json!({"sender": node, "sender_cluster": own, "receiver_cluster": handler_cluster}),
+                        json!({"sender": node, "sender_cluster": own, "declared": declared, "receiver_cluster": handler_cluster, "version": version}),
                     )));
                 }
             }
